@@ -199,5 +199,5 @@ def title_grid(tier):
 def parts(tier):
     return [
         Enum("title-spellings-grid", title_grid),
-        Hyp("section-permutations", specs, quick=4000, thorough=100000),
+        Hyp("section-permutations", specs, quick=10000, thorough=100000),
     ]
